@@ -36,9 +36,11 @@ assert _verif.ENABLED
 RES = {"thread": Resource.thread, "async": Resource.async_thread, "main": Resource.main_thread}
 RES_INV = {v: k for k, v in RES.items()}
 
-GATE_ARRIVE_TIMEOUT = float(os.environ.get("VERIF_GATE_ARRIVE", "1.0"))
-STALL_TIMEOUT = float(os.environ.get("VERIF_STALL", "4.0"))
-HANG_TIMEOUT = float(os.environ.get("VERIF_HANG", "8.0"))
+# generous: on the unchanged tree none of these is ever consumed (every expected node arrives at once); they only
+# bound the time spent on executions that are already wrong, and must not fire on a loaded machine
+GATE_ARRIVE_TIMEOUT = float(os.environ.get("VERIF_GATE_ARRIVE", "6.0"))
+STALL_TIMEOUT = float(os.environ.get("VERIF_STALL", "12.0"))
+HANG_TIMEOUT = float(os.environ.get("VERIF_HANG", "25.0"))
 MAX_EVENTS = 3000  # per execution; the largest legitimate executions here produce a few hundred
 
 _NONCE = itertools.count(1)
@@ -115,6 +117,8 @@ class Controller:
         self.started_async = set()
         self.op_events = 0
         self.in_call = False
+        self.helper_token = {"released": False, "abandoned": False}
+        self.mc = 1
         self.sched_thread = None
         self.invoker = threading.get_ident()
         self.open_all = False
@@ -182,6 +186,10 @@ class Controller:
                 missing = [i for i in ids if i not in self.at_gate and i not in self.exited]
                 if not missing:
                     break
+                # the pool has max_concurrency workers: once that many node functions are inside, nobody else can arrive
+                inside = [i for i in self.entered if i not in self.exited and self.dispatched.get(i) != "main"]
+                if len(inside) >= self.mc:
+                    break
                 left = deadline - time.monotonic()
                 if left <= 0:
                     break
@@ -233,6 +241,7 @@ class Controller:
 
     def on_exec_begin(self, graph, exec_nodes, results, max_concurrency):
         self.sched_thread = threading.get_ident()
+        self.mc = max_concurrency
         self.execs += 1
         nodes = sorted(self.ix(i) for i in graph.nodes)
         self.log("exec_begin", n=max_concurrency, s=nodes, b=(self.sched_thread == self.invoker))
@@ -308,15 +317,32 @@ class Controller:
         if kind == "thread":
             self._thread_wait(ids, mode, futures)
         else:
-            done0 = [i for i in ids if futures[i].done()]
+            done0 = [i for i in ids if futures[i].done() or i in self.exited]
             if done0:
-                return  # asyncio.wait will return them at the next loop iteration; nothing to decide
-            self.helper = threading.Thread(target=self._async_wait, args=(ids, mode), daemon=True)
+                # an awaited node has already returned (it was released in the background): asyncio.wait will
+                # deliver it at the next loop iteration; nothing to decide
+                return
+            self.helper_token = {"released": False, "abandoned": False}
+            self.helper = threading.Thread(target=self._async_wait, args=(ids, mode, self.helper_token), daemon=True)
             self.helper.start()
 
     def on_wait_end(self, kind, graph, done):
         if self.helper is not None and kind == "async":
-            self.helper.join(HANG_TIMEOUT)
+            # normally the wait returns because the helper released an awaited node. It can also return because a node
+            # that finished in the background is delivered now, or (a defect) because a completion is reported that did
+            # not happen. In both cases the helper is called off before it decides anything; the nodes stay gated.
+            tok = self.helper_token
+            with self.cv:
+                called_off = not tok["released"]
+                if called_off:
+                    tok["abandoned"] = True
+            if not called_off:
+                self.helper.join(HANG_TIMEOUT)
+            else:
+                # node functions do return eventually: the ones reported too early finish a little later
+                early = [i for i in done if i not in self.exited]
+                if early:
+                    threading.Timer(0.2, lambda: self._release([i for i in early if i in self.gates])).start()
             self.helper = None
         self.in_wait = None
         self.log("wait_end", k=kind, s=[self.ix(i) for i in done])
@@ -324,6 +350,10 @@ class Controller:
     # a wait on thread futures: runs on the scheduler thread, may block it
     def _thread_wait(self, ids, mode, futures):
         settled = self._settle()
+        # a node released in the background has emitted its exit event; its future becomes done a moment later
+        gone = [futures[i] for i in ids if i in self.exited]
+        if gone:
+            cf_wait(gone, return_when=ALL_COMPLETED, timeout=HANG_TIMEOUT)
         done0 = [i for i in ids if futures[i].done()]
         others = sorted(settled - set(ids), key=self.ix)
         cand = sorted(settled & set(ids), key=self.ix)
@@ -360,9 +390,12 @@ class Controller:
         cf_wait([futures[i] for i in rest], return_when=ALL_COMPLETED, timeout=HANG_TIMEOUT)
 
     # a wait on asyncio futures: the scheduler coroutine is suspended, this runs on a helper thread
-    def _async_wait(self, ids, mode):
+    def _async_wait(self, ids, mode, tok):
         try:
             settled = self._settle()
+            with self.cv:
+                if tok["abandoned"]:
+                    return
             cand = sorted(settled & set(ids), key=self.ix)
             others = sorted(settled - set(ids), key=self.ix)
             if not cand:
@@ -382,7 +415,11 @@ class Controller:
                 for a in cand:
                     for bg in bgs:
                         opts.append((bg, (), (a,)))
-            bg, first, rest = self.decide("wait-async", opts)
+            with self.cv:
+                if tok["abandoned"]:
+                    return
+                bg, first, rest = self.decide("wait-async", opts)
+                tok["released"] = True
             if bg:
                 self._release(bg)
                 self._wait_exit(bg)
